@@ -273,11 +273,18 @@ def run_c15(prop, tier, seed, t0):
     quick = tier != "thorough"
     jobs = tbl_jobs("dbg-serde", "fmt", seed, 8, ["--random", "2000" if quick else "100000"], "fmt", parity=["odd", "even"])
     jobs += tbl_jobs("dbg-serde", "serde", seed, 8, ["--random", "200" if quick else "5000"], "serde", parity=["even", "odd"])
+    # word-at-a-time or pointer-width dependent formatting code would only go wrong on other targets: all single bytes
+    # and seeded strings (also long ones) interpreted for 32-bit i686 and big-endian s390x under Miri
+    for tname, target in (("i686", "i686-unknown-linux-gnu"), ("s390x", "s390x-unknown-linux-gnu")):
+        mj = miri_jobs("cmpfmt", [["fmt", "--no-exhaustive", "--seed", str(seed + k), "--shard", str(k), "--nshards", "4", "--random", "10" if quick else "150"] for k in range(4)], "miri-" + tname + "-fmt", seeds=None, target=target, timeout=2400)
+        for j in mj:
+            j.env["MIRIFLAGS"] = "-Zmiri-ignore-leaks"
+        jobs += mj
     agg = Agg(prop)
     for j in run_jobs(jobs):
         agg.absorb(j)
     agg.counters["evaluations_total"] = agg.counters.get("formatted", 0) + agg.counters.get("token_streams", 0)
-    rule = ("Debug output of every byte string in the universe (empty, all 256 single bytes x 6 representations, all 65536 pairs, seeded random longer strings rich in escapes) is parsed back by an independent parser of the Rust byte-string-literal grammar and must decode to the contents; {:x}/{:X} parsed back as two hex digits per byte; "
+    rule = ("Debug output of every byte string in the universe (empty, all 256 single bytes x 6 representations, all 65536 pairs, seeded random longer strings rich in escapes) is parsed back by an independent parser of the Rust byte-string-literal grammar and must decode to the contents (single bytes and seeded strings also interpreted for 32-bit i686 and big-endian s390x under Miri); {:x}/{:X} parsed back as two hex digits per byte; "
             "with feature serde every string is serialized (must emit Bytes(contents)) and deserialized into Bytes and BytesMut through the token streams Bytes, BorrowedBytes, ByteBuf, Seq(len), Seq(no hint) and (valid UTF-8) Str, BorrowedStr, String, incl. lengths around and beyond 4096. "
             "A cell = escape class of a byte / adjacency class of a pair / serde entry point x length class.")
     return finish(prop, tier, seed, agg, t0, "exploration", rule, exhaustive=True, min_eval_key="evaluations_total",
